@@ -163,8 +163,16 @@ def _limit_flow(ctx, cfg, f, limit):
         it = Interp(model, loop_bound=2, while_bound=4)
         it.reset_run(oracle)
         T.install_string_hooks(it)
-        rec = {'budgets': [], 'prefix': [], 'truth': []}
+        rec = {'budgets': [], 'prefix': [], 'truth': [], 'cuts': []}
         obj = T.clone_obj(cfg.obj)
+
+        def on_index(interp, base, idx, node):
+            parts = [idx.start, idx.stop, idx.step] if isinstance(idx, slice) else [idx]
+            for x in parts:
+                a = Aff.lift(x) if isinstance(x, Aff) else None
+                if a is not None and LIMIT in a.terms:
+                    rec['cuts'].append(ast.unparse(node) if node is not None else repr(base))
+        it.on_index = on_index
         # the renderer-wide setting is a different quantity from the budget a container hands down
         if LIMIT in obj.attrs and limit is not None:
             obj.attrs[LIMIT] = Aff.sym('renderer.' + LIMIT)
@@ -292,7 +300,7 @@ def rule_budget(ctx, rep):
                 undecided.append('%s [%s]: %s' % (f.short, cfg.key(), res[1]))
                 continue
             paths = res[1]
-            if not any(r['budgets'] for r in paths):
+            if not any(r['budgets'] for r in paths) and not any(r.get('cuts') for r in paths):
                 continue        # hands no budget on (leaf block): R-NOWRAP's business
             rep.instance('R-BUDGET')
             problems = {}
@@ -320,6 +328,10 @@ def rule_budget(ctx, rep):
                             if ba is None or ba != want:
                                 problems['prefix:%s' % which] = ('children get the budget %r but the %s prefix has length %r: lines come '
                                                                  'out %s than the limit' % (b, which, plen, 'longer or shorter'))
+            for r in paths:
+                for c_ in r.get('cuts', ()):
+                    problems['limit-cuts-text'] = ('uses the limit to cut a piece out of a value (%s): the limit bounds where lines are '
+                                                   'broken, it never shortens what is written' % c_)
             # without a limit nothing may turn into one
             res0 = _limit_flow(ctx, cfg, f, None)
             if res0[0] == 'ok':
